@@ -23,10 +23,12 @@ import (
 	"fmt"
 	"os"
 	"path/filepath"
+	"runtime"
 	"sort"
 	"strconv"
 	"strings"
 	"sync"
+	"sync/atomic"
 	"testing"
 	"time"
 
@@ -461,6 +463,79 @@ func writeReplay[S any](sp *Spec[S], s S, o Outcome) string {
 	return p
 }
 
+// ---------------------------------------------------------------------------
+// failures decided by a wall-clock bound
+//
+// A "hang" verdict that rests on a time bound only is not trustworthy on a machine that is badly
+// overloaded (other checks, other jobs): a call that needs 50 ms can then need more than its
+// 30 s bound. Such a failure is confirmed before it counts: the scenario is run again once the
+// load has dropped (bounded wait) and with every bound multiplied (TimeScale); only if it fails
+// again is it reported. On a machine that is not overloaded nothing changes.
+
+var timeScale atomic.Int64
+
+// TimeScale is the factor checks multiply their watchdog bounds with (1 except during a confirmation run).
+func TimeScale() time.Duration {
+	if v := timeScale.Load(); v > 1 {
+		return time.Duration(v)
+	}
+	return 1
+}
+
+// Bound scales a watchdog bound.
+func Bound(d time.Duration) time.Duration { return d * TimeScale() }
+
+func load1() float64 {
+	b, err := os.ReadFile("/proc/loadavg")
+	if err != nil {
+		return 0
+	}
+	f := strings.Fields(string(b))
+	if len(f) == 0 {
+		return 0
+	}
+	v, _ := strconv.ParseFloat(f[0], 64)
+	return v
+}
+
+func overloaded() bool { return load1() > 1.5*float64(runtime.NumCPU()) }
+
+func timedShape(shape string) bool {
+	return strings.Contains(shape, "hang") || strings.Contains(shape, "timeout") || strings.Contains(shape, "stuck")
+}
+
+var confirmMu sync.Mutex
+
+// confirmTimed re-runs a scenario whose failure was decided by a time bound while the machine is overloaded.
+func confirmTimed[S any](sp *Spec[S], s S, o Outcome) Outcome {
+	if o.Fail == "" || !timedShape(o.Shape) || !overloaded() || os.Getenv("VERIF_NO_CONFIRM") != "" {
+		return o
+	}
+	confirmMu.Lock()
+	defer confirmMu.Unlock()
+	l0 := load1()
+	for waited := 0; overloaded() && waited < 90; waited += 3 {
+		time.Sleep(3 * time.Second)
+	}
+	timeScale.Store(6)
+	o2 := safeRun(sp, s)
+	timeScale.Store(1)
+	if o2.Fail != "" {
+		return o2
+	}
+	Counter(sp.ID, "time_bound_failures_not_confirmed_on_rerun(machine_overloaded)", 1)
+	Note(sp.ID, "facet %s: a [%s] verdict taken at load average %.0f on %d CPUs did not repeat when the scenario was run again with 6x bounds: not judged (%s)",
+		sp.Facet, o.Shape, l0, runtime.NumCPU(), truncate(o.Fail, 200))
+	return Outcome{Skip: true, Classes: []string{"time-bound-failure-not-confirmed"}}
+}
+
+func truncate(s string, n int) string {
+	if len(s) <= n {
+		return s
+	}
+	return s[:n] + "…"
+}
+
 func safeRun[S any](sp *Spec[S], s S) (o Outcome) {
 	defer func() {
 		if r := recover(); r != nil {
@@ -497,6 +572,9 @@ func runReplays[S any](t *testing.T, sp *Spec[S], expectFail bool) (failed []Out
 		}
 		n++
 		o := safeRun(sp, s)
+		if !expectFail {
+			o = confirmTimed(sp, s, o)
+		}
 		record(sp, s, o)
 		stMu.Lock()
 		facetFor(sp.ID, sp.Facet, sp.Rule).Replayed++
@@ -554,7 +632,7 @@ func Main[S any](t *testing.T, sp Spec[S]) {
 	ok := t.Run("gen", func(t *testing.T) {
 		rapid.Check(t, func(rt *rapid.T) {
 			s := sp.Gen(rt)
-			o := safeRun(&sp, s)
+			o := confirmTimed(&sp, s, safeRun(&sp, s))
 			record(&sp, s, o)
 			if o.Fail != "" {
 				mu.Lock()
